@@ -3,7 +3,9 @@ from . import resp_common as R
 
 SMALL = "{1,2,3,4,6,7,8,10,15,16}"      # self-test universe (no CR/LF-bearing command names)
 QUICK = "{1,2,3,4,7,8,11,12,15,16}"
-LIVE = "{1,2,3,4,5,7,11,12,13,15,16}"
+LIVE = "{1,2,3,4,5,7,11,12,13,15,16,18,20,21,22}"
+MINQ = "{4,6,18,20,21,22}"
+MINIMAL = "{4,6,8,18,19,20,21,22,23}"   # frames built from minimal-size elements (arrays of RESP3 nulls, *0) + two ordinary ones
 
 
 def run(ctx):
@@ -13,6 +15,9 @@ def run(ctx):
     # every stream of <= 2 frames of the universe (10 of its 16 frames in the quick tier) x EVERY split into <= 2 reads, every
     # single frame x every split into <= 3 (thorough: 4) reads; the round-trip / prefix lemmas are checked by the same run
     scripts = ctx.tlc_gen("MC_Resp", R.mc(2, 2, 3 if q else 4, univ=QUICK if q else R.ALL, lemmas=True), "cover", timeout=2400, coverage=True)
+    # frames made of minimal-size elements (arrays of 1..3 RESP3 nulls, nested all-null arrays, an integer next to an all-null
+    # array, the empty array): alone, as the LAST frame of a pipeline and followed by another frame, under every split
+    scripts += ctx.tlc_gen("MC_Resp", R.mc(2, 2 if q else 3, 3 if q else 4, univ=MINQ if q else MINIMAL), "minimal", timeout=2400)
     if not q:
         # every pair (10-frame universe) x every split into <= 3 reads, every triple of a smaller universe x <= 2 reads
         scripts += ctx.tlc_gen("MC_Resp", R.mc(2, 3, univ=QUICK), "pairs-3chunks", timeout=2400)
@@ -23,7 +28,7 @@ def run(ctx):
     # ... and connections whose first frame is a 20 000 byte ECHO (kept run-length encoded in model, scripts and trace)
     # followed by PING / inline PING (thorough: 6 followers), written in <= 3 pieces cut inside the big payload and at EVERY
     # byte of the follower: what the connection loop does with a grown receive buffer must not depend on the chunking
-    live = ctx.tlc_gen("MC_Resp", R.mc(2, 2, 2 if q else 3, univ="{3,4,12,16}" if q else LIVE, live=True, bign=20000,
+    live = ctx.tlc_gen("MC_Resp", R.mc(2, 2, 2 if q else 3, univ="{3,4,12,16,18,22}" if q else LIVE, live=True, bign=20000,
                                         biguniv="{5,15}" if q else "{4,5,12,13,15,16}",
                                         bigcuts="{1,16385}" if q else "{1,4096,8192,16384,16385,19999}", bigchunks=3),
                        "live", timeout=2400, coverage=True)
